@@ -74,7 +74,11 @@ pub fn managed_race(prop: &'static str, seed: u64, close: bool) -> RaceOut {
     let mut rng = Rng::derive(seed, 0x7ace, close as u64);
     let small = cfg!(miri) || std::env::var_os("VERIF_RACE_SMALL").is_some();
     let dense = rng.chance(1, 2);
-    let threads = if small { 3 } else if dense { rng.range(12, 40) as usize } else { rng.range(3, 12) as usize };
+    // for the status sampler (C11) half of the rounds run with one or two workers only: the race-proof
+    // bound "waiting <= callers inside get()" is then tight enough to see an off-by-one
+    let few = prop == "C11" && rng.chance(1, 2);
+    let dense = dense && !few;
+    let threads = if small { 3 } else if few { rng.range(1, 2) as usize } else if dense { rng.range(12, 40) as usize } else { rng.range(3, 12) as usize };
     let iters = if small { rng.range(3, 8) as usize } else { rng.range(200, 1500) as usize };
     let start_max = rng.range(1, 4) as usize;
     let resizes: Vec<usize> = (0..rng.range(4, if cfg!(miri) { 6 } else { 40 })).map(|_| rng.usize_below(6)).collect();
